@@ -148,7 +148,7 @@ impl Sanitizer {
         let mut last_was_sep = false;
 
         for ch in input.chars() {
-            if ch.is_alphanumeric() {
+            if ch.is_ascii_alphanumeric() {
                 result.push(ch);
                 last_was_sep = false;
             } else if !last_was_sep {
